@@ -48,16 +48,23 @@ SELFTESTS = [("store/StoreConc_self1.cfg", "Linearizable"), ("store/StoreConc_se
 
 
 def _race_reports(log_path):
-    """data races reported by the Go race detector in the driver log, keyed by their top frames"""
+    """data races reported by the Go race detector in the driver log: (innermost celestia-node frames of the two
+    conflicting accesses, all celestia-node/harness frames, text)"""
     try:
         txt = open(log_path, errors="replace").read()
     except OSError:
         return []
     out = []
+    fre = r"(?m)^\s+((?:github\.com/celestiaorg/celestia-node|verifharness)\S*?)\(\)\s*$"
     for blk in txt.split("WARNING: DATA RACE")[1:]:
         blk = blk.split("==================")[0]
-        frames = re.findall(r"(?m)^\s+((?:github\.com/celestiaorg/celestia-node|verifharness)[^\s(]+)\(", blk)
-        out.append((frames, blk[:3000]))
+        frames = re.findall(fre, blk)
+        tops = []
+        for sec in re.split(r"\n\s*\n", blk)[:2]:      # the two conflicting accesses come first
+            fs = [f for f in re.findall(fre, sec) if "celestia-node" in f]
+            if fs:
+                tops.append(fs[0].split("/")[-1])
+        out.append((tops, frames, blk[:3000]))
     return out
 
 
@@ -115,17 +122,16 @@ def run(ctx):
     ctx.cover(race_detector_used=raced)
     c = rep.get("counters", {})
     races = _race_reports(log_path)
-    for frames, blk in races:
-        mine = [f for f in frames if "celestia-node" in f]
-        if mine:
-            ctx.violation("C08/data-race/" + "+".join(sorted(set(f.split("/")[-1] for f in mine[:2]))),
+    for tops, frames, blk in races:
+        if tops:
+            ctx.violation("C08/data-race/" + "+".join(sorted(set(tops))),
                           "the race detector reports a data race in the store under a concurrent program: " +
-                          " / ".join(mine[:4]), {"report": blk})
+                          " vs ".join(tops), {"report": blk})
         else:
             ctx.inconclusive("race detector report inside the harness only: %s" % (frames[:3],))
     ctx.cover(race_reports=len(races))
     for k in ("programs", "accessors_held", "lin_writes", "lin_reads_checked", "fd_checks", "scenario_held_accessor",
-              "scenario_stale_cache", "scenario_reput", "cache_entries_observed", "lock_acquisitions",
+              "scenario_stale_cache", "scenario_reput", "scenario_shared_accessor", "cache_entries_observed", "lock_acquisitions",
               "ops_PutODSQ4", "ops_RemoveODSQ4", "ops_RemoveQ4", "ops_Get", "ops_CachedGet", "ops_Has"):
         if c.get(k, 0) == 0:
             ctx.inconclusive("vacuity: driver counter %s is 0" % k)
